@@ -395,6 +395,28 @@ def check_multimodule(blists, placement, style, rev, defmask, shadow_root=False)
         if (f.parent.fullName() if f is not None else None) != wantdef:
             note(why="find() attributes m to the wrong class", cls=nm, got=f and f.parent.fullName(), want=wantdef, sources=sources)
             return False
+        # the reverse relations the class page shows: "Known subclasses" and "overridden in"
+        got_sub = sorted(x.fullName() for x in c.subclasses)
+        want_sub = sorted(k.__module__ + "." + k.__qualname__ for k in pc.__subclasses__())
+        if got_sub != want_sub:
+            note(why="known subclasses differ from the interpreter's __subclasses__()", cls=modname + "." + nm, got=got_sub, want=want_sub, sources=sources)
+            return False
+        if "m" in vars(pc):
+            from pydoctor.templatewriter import util as _tutil
+            got_over = sorted(x.fullName() for x in _tutil.overriding_subclasses(c, "m"))
+
+            def redefiners(k):
+                out = []
+                for sub in k.__subclasses__():
+                    if "m" in vars(sub):
+                        out.append(sub.__module__ + "." + sub.__qualname__)
+                    else:
+                        out += redefiners(sub)
+                return out
+            want_over = sorted(set(redefiners(pc)))
+            if sorted(set(got_over)) != want_over:
+                note(why="'overridden in' differs from the nearest redefining descendants", cls=modname + "." + nm, got=got_over, want=want_over, sources=sources)
+                return False
     return True
 
 
@@ -402,7 +424,7 @@ def check_multimodule(blists, placement, style, rev, defmask, shadow_root=False)
     parts=lambda: [[pi, st, rv] for pi in range(len(_PLACEMENTS)) for st in range(3) for rv in range(2)],
     timeout=(240, 1800), cls="E", tracing="concrete-after-choice", twin="first",
     code=["pydoctor.model.compute_mro (two-pass base resolution)", "pydoctor.model.Class._init_mro/mro/find", "pydoctor.astbuilder.ModuleVistor.visit_ClassDef/visit_Import/visit_ImportFrom",
-          "pydoctor.model.System.process/getProcessedModule", "pydoctor.model.Documentable.resolveName/expandName"],
+          "pydoctor.model.System.process/getProcessedModule", "pydoctor.model.Documentable.resolveName/expandName", "pydoctor.model.defaultPostProcess (subclasses)", "pydoctor.templatewriter.util.overriding_subclasses"],
     bounds={"quick": "4 classes, all 160 ordered-base hierarchies (consistent ones) x 7 placements over <=3 modules of one package (later classes in the same or the next module) x 3 ways of naming a base in another module (from-import, aliased module import, dotted module import) x module names sorting before/after their dependencies x 2 member placements; plus a variant where the importing module has a local name equal to the root package's",
             "thorough": "same with 4 member placements"},
     outside="import cycles between the modules (C06), re-exports (C07), more than 3 modules",
